@@ -24,6 +24,7 @@ class World:
         self.digests = []
         self.switches = 0
         self.make_backend_override = None
+        self.after_run = None
 
     def close(self):
         if self.dir is not None:
@@ -55,6 +56,8 @@ class World:
         r = world.run_process(self.env, world.session(self.factory(profile, state), client, action, unlock=unlock),
                               opts, keep_log=keep_log)
         (state if state is not None else self.state).frozen = False   # durable state outlives the process
+        if self.after_run is not None:
+            self.after_run(r)
         self.sim_steps += r.stats['steps']
         self.sim_s += r.stats['sim_s']
         self.switches += r.stats['switches']
